@@ -241,7 +241,11 @@ where F: Fn(u64, &mut Rng, &mut Report) + Sync {
 static START: std::sync::OnceLock<Instant> = std::sync::OnceLock::new();
 static ACTIVE: Mutex<Vec<(std::thread::ThreadId, String, u64, Instant)>> = Mutex::new(Vec::new());
 
-fn case_begin(group: &str, case: u64) { ACTIVE.lock().unwrap().push((std::thread::current().id(), group.to_string(), case, Instant::now())); }
+thread_local! { static CASE_TICK: std::cell::Cell<u64> = const { std::cell::Cell::new(0) }; }
+/// a per-case call counter (reset when a case begins): lets helpers vary deterministically from call to call within a case
+pub fn case_tick() -> u64 { CASE_TICK.with(|c| { let v = c.get(); c.set(v + 1); v }) }
+fn case_begin(group: &str, case: u64) {
+    CASE_TICK.with(|c| c.set(case.wrapping_mul(0x9e37_79b9) & 0xffff)); ACTIVE.lock().unwrap().push((std::thread::current().id(), group.to_string(), case, Instant::now())); }
 fn case_end() { let id = std::thread::current().id(); ACTIVE.lock().unwrap().retain(|e| e.0 != id); }
 
 // ---------------------------------------------------------------- fatal signals
